@@ -147,10 +147,19 @@ def model_level(run, scratch, prop):
     """Design level: the implementation-shaped pipeline model (AsmPasses) satisfies the reference clauses on every program of
     the class, and each named deviation (a historical defect) is reproduced as a counterexample."""
     n = 3 if run.tier == 'quick' else 4
-    plans = [('control', n, G_NEAR, {}), ('far', n, G_CJ, {}), ('far', 3, G_J, {}), ('values', 3, G_NEAR, {}), ('aligns', 3, [], {})]
-    devs = [('far', 3, G_CJ, {'Dev_NearCallLo': True}, 'M_TargetExact'), ('far', 3, G_J, {'Dev_CompressPairJalr': True}, 'M_TargetExact')]
+    PLANS = {'C03': [('control', n, G_NEAR, {}), ('far', n, G_CJ, {}), ('far', 3, G_J, {})],
+             'C04': [('literals', 2, [], {})],
+             'C08': [('values', n, G_NEAR, {})],
+             'C09': [('aligns', n, [], {}), ('datamix', 3, [3], {})],
+             'C12': [('abs', n, [], {}), ('oddalign', 3, [], {})],
+             'C20': [('control', 3, G_CB, {})]}
+    DEVS = {'C03': [('far', 3, G_CJ, {'Dev_NearCallLo': True}, 'M_TargetExact'), ('far', 3, G_J, {'Dev_CompressPairJalr': True}, 'M_TargetExact')]}
+    plans = PLANS.get(prop, [])
+    devs = DEVS.get(prop, [])
     invs = ['M_LabelsExact', 'M_TargetExact', 'M_AgreesWithRun', 'M_CompressSafe']
     for cls, maxlen, gaps, dev in plans:
+        if cls == 'oddalign':
+            invs = ['M_LabelsExact', 'M_TargetExact', 'M_AgreesWithRun']      # M_CompressSafe fails here by design: KF-C12-odd-align-parity
         cfg = os.path.join(scratch, 'mc_%s_%d_%d.cfg' % (cls, maxlen, len(gaps)))
         tlc.write_cfg(cfg, spec='MSpec', constants=dict({'Class': cls, 'MaxLen': maxlen, 'Gaps': set(gaps), 'MaxGapItems': 1,
                                                          'Dev_NearCallLo': False, 'Dev_CompressPairJalr': False}, **dev),
@@ -209,18 +218,22 @@ def c03(run, scratch):
 
 
 def c04(run, scratch):
+    model_level(run, scratch, 'C04')
     run_plan(run, scratch, 'C04')
 
 
 def c08(run, scratch):
+    model_level(run, scratch, 'C08')
     run_plan(run, scratch, 'C08')
 
 
 def c09(run, scratch):
+    model_level(run, scratch, 'C09')
     run_plan(run, scratch, 'C09')
 
 
 def c12(run, scratch):
+    model_level(run, scratch, 'C12')
     run_plan(run, scratch, 'C12')
     # constants and register aliases as operands (the use sites of ExprSpace): accepted without -c => accepted with -c
     import checks_front
@@ -250,6 +263,7 @@ def c12(run, scratch):
 
 
 def c20(run, scratch):
+    model_level(run, scratch, 'C20')
     run_plan(run, scratch, 'C20')
 
 
